@@ -24,6 +24,7 @@ fn substitute(
     exp: &mut Expression,
     expected_alignment: i64,
     journaled_sp: &mut i64,
+    sp_register: &Variable,
     tid: Tid,
 ) -> Vec<LogMessage> {
     let mut log: Vec<LogMessage> = vec![];
@@ -32,7 +33,15 @@ fn substitute(
         match (&**lhs, &**rhs) {
             (Expression::Var(sp), Expression::Const(bitmask))
             | (Expression::Const(bitmask), Expression::Var(sp)) => {
-                if let BinOpType::IntAnd = op {
+                if sp != sp_register {
+                    // The journaled offset only describes the stack pointer register.
+                    log.push(
+                        LogMessage::new_info(
+                            "Unsubstitutable Operation on SP. Input is not the stack pointer.",
+                        )
+                        .location(tid),
+                    );
+                } else if let BinOpType::IntAnd = op {
                     if ApInt::try_to_i64(&ApInt::into_negate(bitmask.clone())).unwrap()
                         != expected_alignment
                     {
@@ -192,6 +201,7 @@ pub fn substitute_and_on_stackpointer(project: &mut Project) -> Option<Vec<LogMe
                                         value,
                                         sp_alignment,
                                         journaled_sp,
+                                        &project.stack_pointer_register,
                                         def.tid.clone(),
                                     );
                                     log.append(&mut msg);
